@@ -105,6 +105,11 @@ func Load(dir string, cfg Config) (*Prog, error) {
 	_ = spkgs
 	prog.Build()
 	p.SSA = prog
+	for fn := range ssautil.AllFunctions(prog) {
+		if InModule(fn) {
+			unspillDeferredResults(fn)
+		}
+	}
 	for path, pk := range p.Pkgs {
 		sp := prog.Package(pk.Types)
 		if sp == nil {
@@ -316,4 +321,70 @@ func FnName(fn *ssa.Function) string {
 	s := fn.String()
 	s = strings.ReplaceAll(s, Mod+"/", "")
 	return strings.ReplaceAll(s, Mod+".", "multiproof.")
+}
+
+// unspillDeferredResults: in a function with a defer, go/ssa compiles `return a, b` as stores of a and b into result
+// cells, rundefers, loads of the cells, return. When no deferred literal can touch those cells (none captures them),
+// what is returned is what was stored: the Return is rewritten to name the stored values directly, so that rules
+// looking at returned values see the same thing with and without a `defer` in the function.
+func unspillDeferredResults(fn *ssa.Function) {
+	if fn.Recover == nil {
+		return
+	}
+	for _, b := range fn.Blocks {
+		if b == fn.Recover || len(b.Instrs) == 0 {
+			continue
+		}
+		ret, ok := b.Instrs[len(b.Instrs)-1].(*ssa.Return)
+		if !ok {
+			continue
+		}
+		// position of rundefers in this block
+		rd := -1
+		for i, in := range b.Instrs {
+			if _, isRD := in.(*ssa.RunDefers); isRD {
+				rd = i
+			}
+		}
+		if rd < 0 {
+			continue
+		}
+		for k, rv := range ret.Results {
+			ld, isLd := rv.(*ssa.UnOp)
+			if !isLd || ld.Op != token.MUL || ld.Block() != b {
+				continue
+			}
+			cell, isCell := ld.X.(*ssa.Alloc)
+			if !isCell {
+				continue
+			}
+			// the cell is only stored to and loaded from (no literal captures it, no address escapes)
+			plain := true
+			for _, r := range Refs(cell) {
+				switch x := r.(type) {
+				case *ssa.Store:
+					if x.Addr != ssa.Value(cell) {
+						plain = false
+					}
+				case *ssa.UnOp:
+				case *ssa.DebugRef:
+				default:
+					plain = false
+				}
+			}
+			if !plain {
+				continue
+			}
+			// the last store into the cell before rundefers, in this block
+			var val ssa.Value
+			for i := 0; i < rd; i++ {
+				if st, isSt := b.Instrs[i].(*ssa.Store); isSt && st.Addr == ssa.Value(cell) {
+					val = st.Val
+				}
+			}
+			if val != nil {
+				ret.Results[k] = val
+			}
+		}
+	}
 }
